@@ -68,7 +68,8 @@ Definition temp_write (p : pid) (f : fs) (b : bytes) : fs :=
 Definition aw_exec (p : pid) (f : fs) (w : wst) (a : astep) : aw_res :=
   match a with
   | MkParent => Next f w
-  | CreateTemp => Next (fst (create_trunc f (Temp p))) w
+  | CreateTemp =>                       (* File::create + BufWriter::new: an empty buffer *)
+      Next (fst (create_trunc f (Temp p))) (mkw (wcontent w) (wsize w) [] (wh w) (wlocked w))
   | WriteTemp =>
       if bufwriter_cap <=? wsize w
       then Next (temp_write p f (wcontent w)) w
@@ -76,17 +77,16 @@ Definition aw_exec (p : pid) (f : fs) (w : wst) (a : astep) : aw_res :=
   | Flush => Next (temp_write p f (wbuf w)) (mkw (wcontent w) (wsize w) [] (wh w) (wlocked w))
   | Fsync => Next f w
   | OpenTarget =>
-      (* OpenOptions::new().write(true).create(true).truncate(false): an absent target is
-         created EMPTY only to have something to lock (D14) *)
-      let '(f', i) := open_create f Target in
-      Next f' (mkw (wcontent w) (wsize w) (wbuf w) (Some i) (wlocked w))
+      (* the target is opened for locking only if it exists; it is never created empty
+         (D14 repaired: there is no placeholder a crash or a concurrent reader could see) *)
+      Next f (mkw (wcontent w) (wsize w) (wbuf w) (open_existing f Target) (wlocked w))
   | LockExcl =>
       match wh w with
       | Some i => match try_lock_ex f i p with
                   | Some f' => Next f' (mkw (wcontent w) (wsize w) (wbuf w) (wh w) true)
                   | None => Blocked
                   end
-      | None => Err
+      | None => Next f w                  (* no target yet: nothing to lock *)
       end
   | Rename => match rename f (Temp p) Target with Some f' => Next f' w | None => Err end
   | Unlock =>
